@@ -608,6 +608,7 @@ class Provenance(MutableSequence[Expression]):
         index: Union[int, slice, Sequence[int], Sequence[bool], NDArray[np.int_], NDArray[np.bool_]],
         value: Union[Expression, Iterable[Expression]],
     ) -> None:
+        self._is_simple = False  # After an edit the tuples no longer have to be in one-to-one order with the units.
         expression_data = [value.data] if isinstance(value, Expression) else list(v.data for v in value)
         expression_data = [
             (
@@ -638,6 +639,7 @@ class Provenance(MutableSequence[Expression]):
     def __delitem__(
         self, index: Union[int, slice, Sequence[int], Sequence[bool], NDArray[np.int_], NDArray[np.bool_]]
     ) -> None:
+        self._is_simple = False
         self._data = np.delete(self._data, index, axis=0)
 
     def __len__(self) -> int:
